@@ -1120,7 +1120,9 @@ class Signature:
             )
             return None
         if not extra_keywords_allowed:
-            extra_kwargs = set(actual_args.keywords) - keywords_consumed
+            extra_kwargs = [
+                name for name in actual_args.keywords if name not in keywords_consumed
+            ]
             if extra_kwargs:
                 extra_kwargs_str = ", ".join(map(repr, extra_kwargs))
                 if len(extra_kwargs) == 1:
